@@ -152,10 +152,17 @@ def build(topo, hl, initial_modes=None, gap=6):
                 steps += [{"op": "send", "c": c, "msgs": [{"t": "Q", "sql": "SET SHARD TO '%d'" % s["shard"]}]}, {"op": "recv", "c": c, "until": "Z", "timeout_ms": 3000}]
             sql = s.get("sql", "SELECT 1") + " /*%s*/" % lab
             msgs = s.get("msgs") or [{"t": "Q", "sql": sql}]
-            steps += [{"op": "bans", "label": lab + ":pre"}, {"op": "send", "c": c, "msgs": msgs},
-                      {"op": "recv", "c": c, "until": "Z", "timeout_ms": s.get("wait", 5000), "label": lab}, {"op": "bans", "label": lab + ":post"}]
-            if not s.get("keep"):
-                steps += [{"op": "send", "c": c, "msgs": [{"t": "X"}]}]
+            if s.get("fate"):
+                # the client goes away while its statement is in flight: closes right after sending, or resets
+                # its socket (SO_LINGER 0) 30 ms later; nothing is read.  The ban list is looked at after `settle` ms.
+                gone = [{"op": "close", "c": c}] if s["fate"] == "close" else [{"op": "sleep", "ms": 30}, {"op": "close", "c": c, "rst": True}]
+                steps += [{"op": "bans", "label": lab + ":pre"}, {"op": "send", "c": c, "msgs": msgs}] + gone + \
+                         [{"op": "sleep", "ms": s.get("settle", 650)}, {"op": "bans", "label": lab + ":post"}]
+            else:
+                steps += [{"op": "bans", "label": lab + ":pre"}, {"op": "send", "c": c, "msgs": msgs},
+                          {"op": "recv", "c": c, "until": "Z", "timeout_ms": s.get("wait", 5000), "label": lab}, {"op": "bans", "label": lab + ":post"}]
+                if not s.get("keep"):
+                    steps += [{"op": "send", "c": c, "msgs": [{"t": "X"}]}]
         elif op in ("ban", "unban", "showbans", "admin_raw"):
             if op == "ban":
                 sql = "BAN %s %d" % (topo.by_name[s["b"]]["host"], s["secs"])
@@ -267,6 +274,29 @@ def observe_txn(topo, s, w):
             "pre": pool_bans(w["pre"]), "post": pool_bans(w["post"]), "t0": w["pre"]["unix_ms"], "t1": w["post"]["unix_ms"]}
 
 
+def gone_verdict(topo, s, ob, modes):
+    """The client left before any reply: what happened is read from the backend that logged the statement.
+    kill = the statement carries /*mock: sleep=.., close*/ (the session dies after the checkout)."""
+    srv = ob["stmt_at"]
+    ob["fate"] = s["fate"]
+    if srv is None:
+        ob["kind"], ob["arg"] = "gone_unseen", None
+        return
+    m = modes[srv]
+    if m == "hang":
+        k = "KStmtTimeout"
+    elif s.get("kill") or m in ("close_mid_reply", "down"):
+        k = "KRecv"
+    elif m == "slow500":
+        k = "KStmtTimeout"
+    else:
+        k = None
+    ob["kind"], ob["arg"] = ("exec", k) if k else ("ok_err", None)
+    if k and os.environ.get("VERIF_C07_SELFTEST_GONE_NOBAN"):
+        # self-test: pretend the implementation skipped the ban because the client was gone
+        ob["post"] = [b for b in ob["post"] if topo.by_host[b["host"]]["name"] != srv or b in ob["pre"]]
+
+
 def bl_match(model_bl, obs_bl, nows, t0s, t1s):
     """model_bl / obs_bl: lists of (id, reason, ts).  Same keys and reasons; time stamps equal, or the
     model's stamp is one of this step's clock readings (a ban made in this step) and the observed one
@@ -368,7 +398,12 @@ def monitors(topo, s, ob, modes):
     # (a statement that then fails on a broken server the checkout handed out is the other sentence of the property)
     if usable and ob["kind"] in ("refused", "closed_silent", "other_error"):
         bad.append("candidate(s) %s usable (healthy and not under an unexpired ban) but the transaction was refused: %s %s" % (usable, ob["kind"], ob["arg"]))
-    if ob["kind"] == "exec" and ob["stmt_at"] and healthy(modes[ob["stmt_at"]]) and not flags.get(ob["stmt_at"]):
+    if ob["kind"] == "exec" and ob["stmt_at"] and topo.by_name[ob["stmt_at"]]["role"] == "R":
+        want = {"KRecv": "MessageReceiveFailed", "KStmtTimeout": "StatementTimeout", "KSend": "MessageSendFailed"}[ob["arg"]]
+        if ob["stmt_at"] not in post or post[ob["stmt_at"]]["reason"] != want:
+            bad.append("replica %s broke while executing the statement (%s, client %s) and is not banned %s afterwards: %s" %
+                       (ob["stmt_at"], ob["arg"], {"close": "closed its socket before the reply", "rst": "reset its socket before the reply"}.get(ob.get("fate"), "stayed"), want, brief(ob["post"])))
+    if ob["kind"] == "exec" and ob["stmt_at"] and healthy(modes[ob["stmt_at"]]) and not flags.get(ob["stmt_at"]) and not s.get("kill"):
         bad.append("the statement failed (%s) on %s which is healthy" % (ob["arg"], ob["stmt_at"]))
     if ob["kind"] == "ok" and not healthy(modes[ob["arg"]]) and modes[ob["arg"]] != "hang_startup":
         bad.append("served by %s which is in mode %s" % (ob["arg"], modes[ob["arg"]]))
@@ -615,6 +650,8 @@ def run_and_check(run, col, wire, cases, stats, label, workers=16):
             m = modes[s["k"]]
             if s["op"] == "txn":
                 ob = observe_txn(topo, s, w)
+                if s.get("fate"):
+                    gone_verdict(topo, s, ob, m)
                 st = {"s": s, "ob": ob, "modes": m}
                 info["steps"].append(st)
                 if ob["kind"] in ("ok", "ok_err", "exec", "refused"):
@@ -627,7 +664,8 @@ def run_and_check(run, col, wire, cases, stats, label, workers=16):
                     ek = "(Some %s)" % ob["arg"] if ob["kind"] == "exec" else "None"
                     st["nows"] = nows
                     first = "[" + "; ".join(topo.coq_addr(topo.by_name[n]) for n in s.get("first", [])) + "]"
-                    exprs.append("tie_txn %s %s %s %s %s [%s] %s %s" % (topo.coq_cfg(), coq_bl(topo, ob["pre"]), req, shard, opts, "; ".join(str(n) for n in nows), ek, first))
+                    exprs.append("tie_txn %s %s %s %s %s [%s] %s %s %s" % (topo.coq_cfg(), coq_bl(topo, ob["pre"]), req, shard, opts, "; ".join(str(n) for n in nows), ek, first,
+                                                                         "true" if s.get("fate") else "false"))
                     where.append((ci, len(info["steps"]) - 1))
             else:
                 frames = []
